@@ -24,5 +24,6 @@ def main : IO Unit := do
   match words first with
   | ["mode", "codec"] => loop stdin stdout codecStep
   | ["mode", "report"] => loop stdin stdout reportStep
+  | ["mode", "off"] => loop stdin stdout offStep
   | ["mode", "seq"] => loopSt stdin stdout seqStep ⟨Fastrace.Sys.init, 0⟩
   | _ => IO.eprintln "fmodel: unknown mode"; IO.Process.exit 2
